@@ -60,6 +60,18 @@ def noise_roles(repo):
                 for x in list(c.args) + [k.value for k in c.keywords]:
                     if is_self_attr(x) and x.attr in cls.methods:
                         r["stream_cb"] = x.attr
+    # the flush function proper is the one that takes the lock around the delivering code (the delivering loop may have
+    # been extracted into a helper it calls)
+    if r["flush"] and r["lock"]:
+        def takes_lock(f):
+            return any((isinstance(x, ast.With) and any(is_self_attr(i.context_expr, r["lock"]) for i in x.items)) or
+                       (isinstance(x, ast.Call) and isinstance(x.func, ast.Attribute) and x.func.attr == "acquire" and is_self_attr(x.func.value, r["lock"])) for x in ast.walk(f))
+        if not takes_lock(cls.methods[r["flush"]]):
+            for name, fn in cls.methods.items():
+                if takes_lock(fn) and any(isinstance(c, ast.Call) and is_self_attr(c.func, r["flush"]) for c in ast.walk(fn)):
+                    r["deliverer"] = r["flush"]
+                    r["flush"] = name
+                    break
     missing = [k for k, v in r.items() if v is None]
     if missing:
         from ..repo import AnalysisError
@@ -378,6 +390,16 @@ def _noise_layer(repo, roles, cell=None, domains=None, state=None, rs=None, know
         itp.emit("CALL", "flush", [])
         return C_NONE
     hk["fn:" + roles["flush"]] = flush
+    # one thread runs everything: its identity is a constant
+
+    def current_thread(itp, recv, a, k, env, d, e):
+        t = Obj(None)
+        t.fields["ident"] = ("c", 4242)
+        t.fields["name"] = ("c", "T")
+        return ("obj", t)
+    hk["ext:*.current_thread"] = current_thread
+    hk["ext:*.currentThread"] = current_thread
+    hk["ext:*.get_ident"] = lambda itp, recv, a, k, env, d, e: ("c", 4242)
     hk.update(extra_hooks or {})
     it = Interp(repo, cell if cell is not None else {}, domains if domains is not None else {}, hooks=hk)
     it.layer_base = runner.base
@@ -474,20 +496,56 @@ def rule_flush(ctx):
               "a received segment must be enqueued before the handshake state is tested (a frame arriving while the handshake completes would be lost or reordered): during the handshake %s, in transport state %s" % (outs["STATE_HANDSHAKE"], outs["STATE_TRANSPORT"]),
               "enqueue, then test the state, then flush")
     ctx.check("C04.flush", "up" not in outs["STATE_HANDSHAKE"][0] + outs["STATE_TRANSPORT"][0], w, "no delivery bypasses the queue", "receive delivers a frame without going through the ordered queue", "all deliveries go through the queue")
-    # the flush function: the whole drain loop runs under the layer's flush lock; every drained segment is decrypted by
-    # the protocol and delivered
+    # the flush function, abstractly executed on a queue holding two segments: each is decrypted by the protocol and
+    # delivered, in order, while the flush lock is held; the lock is free afterwards
+    from . import c11 as _c11
     ff = repo.method(NOISE, CN, roles["flush"])
     wf = where(NOISE, CN + "." + roles["flush"], ff.lineno)
-    gf = CFG(ff)
-    L = roles["lock"]
-    acq = [n for n in gf.live if (n.kind == "stmt" and n.stmt is not None and unparse(n.stmt) == "self.%s.acquire()" % L) or (n.kind == "with_enter" and any(is_self_attr(i.context_expr, L) for i in n.stmt.items))]
-    loops = [n for n in gf.live if n.kind == "test" and isinstance(n.stmt, ast.While)]
-    ups = [n for n in gf.live if any(isinstance(x, ast.Call) and is_self_attr(x.func, "toUpper") for e in node_exprs(n) for x in walk_no_nested(e))]
-    reads_queue = bool(loops) and any(is_self_attr(x, roles["queue"]) for x in ast.walk(loops[0].stmt.test))
-    ok = len(acq) >= 1 and len(loops) == 1 and len(ups) == 1 and gf.dominates(acq[0], loops[0]) and reads_queue
-    ctx.check("C04.flush", ok, wf, "drain loop under the flush lock", "the whole drain loop must run under one lock (two flushers would interleave frames)", "lock taken before the drain loop")
-    dec = bool(ups) and any(isinstance(x, ast.Call) and isinstance(x.func, ast.Attribute) and x.func.attr == "receive" and is_self_attr(x.func.value, roles["proto"]) for x in ast.walk(ups[0].stmt))
-    ctx.check("C04.flush", dec, wf, ups[0].stmt if ups else ff, "each drained segment must be decrypted by the protocol and delivered", "decrypt and deliver per segment")
+    state = {"queued": 2, "n": 0}
+    snaps = []
+    hooks = {"ext:inq.qsize": lambda itp, recv, a, k, env, d, e: ("c", state["queued"]),
+             "ext:inq.empty": lambda itp, recv, a, k, env, d, e: ("c", state["queued"] == 0)}
+
+    def receive_(itp, recv, a, k, env, d, e):
+        state["queued"] -= 1
+        state["n"] += 1
+        return ("ext", "FRAME%d" % state["n"], [])
+    hooks["method:receive"] = receive_
+    it, layer, _c = _noise_layer(repo, roles, extra_hooks=hooks)
+    del it.hooks["fn:" + roles["flush"]]
+    it.loop_unroll = 5            # the queue length is scripted: the drain loop really iterates
+    up0 = it.hooks["method:toUpper"]
+
+    def up_(itp, recv, a, k, env, d, e):
+        snaps.append((list(flat_effects(itp.effects)), a[0] if a else None))
+        return up0(itp, recv, a, k, env, d, e)
+    it.hooks["method:toUpper"] = up_
+    lock = layer[1].fields.get(roles["lock"])
+    raised = None
+    from ..absint import NeedAtom
+    try:
+        it.method_call(layer, roles["flush"], [], {}, {"@module": cls.module, "@owner": cls}, 0, None)
+    except _Raise as r:
+        raised = r.text
+    except NeedAtom as x:
+        if x.atom[0] == "F" and x.atom[1].startswith("trylock("):
+            ctx.violate("C04.flush", wf, "drain loop under the flush lock", "the flush lock is only tried (%s): a flusher that finds it taken leaves without draining, and the frame it has just queued stays there until another frame arrives - frames are held back after the handshake" % x.atom[1][8:-1])
+        else:
+            ctx.undecided("C04.flush", wf, ff, "the flush function depends on a test the interpreter cannot decide: %s" % (x.atom,))
+        lock = None
+        raised = "skip"
+    if raised == "skip":
+        pass
+    elif lock is None or lock[0] != "ext":
+        ctx.undecided("C04.flush", wf, ff, "the flush lock (an attribute bound to threading.Lock() by the constructor) was not identified")
+    else:
+        held = [_c11.lock_balance(effs, lock) for effs, _v in snaps]
+        end = _c11.lock_balance(list(flat_effects(it.effects)), lock)
+        ctx.check("C04.flush", bool(held) and all(h == 1 for h in held) and end == 0 and not raised, wf, "drain loop under the flush lock",
+                  "the whole drain loop must run under one lock (two flushers would interleave frames): lock held %s time(s) at the deliveries, %s afterwards" % (held, end), "every delivery happens under the flush lock")
+        got = [v for _e, v in snaps]
+        ctx.check("C04.flush", got == [("ext", "FRAME1", []), ("ext", "FRAME2", [])] and state["queued"] == 0, wf, "decrypt and deliver per segment, in order",
+                  "each drained segment must be decrypted by the protocol and delivered (delivered %s, %d left queued)" % ([show(v)[:12] if v else None for v in got], state["queued"]), "decrypt and deliver per segment")
     # both flush sites use the same function
     sites = []
     for name, f in cls.methods.items():
